@@ -2,6 +2,13 @@
 
 package tls
 
+import (
+	"errors"
+	"math/big"
+
+	"golang.org/x/crypto/curve25519"
+)
+
 // Verification hooks for the negotiation rules (property C24); add-only.
 // They expose the negotiation tables and the unexported selection functions
 // exactly as the handshake code calls them.
@@ -131,4 +138,73 @@ func VerifClientHelloSuites(cfg *Config) (vers uint16, suites []uint16, versions
 		return 0, nil, nil, err
 	}
 	return h.vers, h.cipherSuites, h.supportedVersions, nil
+}
+
+// verifFixedReader yields the given bytes, then zeros.
+type verifFixedReader struct{ b []byte }
+
+func (r *verifFixedReader) Read(p []byte) (int, error) {
+	for i := range p {
+		if len(r.b) > 0 {
+			p[i], r.b = r.b[0], r.b[1:]
+		} else {
+			p[i] = 0
+		}
+	}
+	return len(p), nil
+}
+
+// VerifDHEPremasters runs the two ends of the finite-field Diffie-Hellman key
+// agreement against each other in the group (p, g) with the private values sx
+// (server) and cx (client, 0 < cx < p): the client's generateClientKeyExchange
+// against the server's processClientKeyExchange.
+func VerifDHEPremasters(p, g, sx, cx *big.Int) (server, client []byte, err error) {
+	k := (new(big.Int).Sub(p, big.NewInt(1)).BitLen() + 7) / 8
+	cfg := &Config{Rand: &verifFixedReader{b: cx.FillBytes(make([]byte, k))}}
+	cka := &dheKeyAgreement{p: p, g: g, yTheirs: new(big.Int).Exp(g, sx, p)}
+	client, ckx, err := cka.generateClientKeyExchange(cfg, nil, nil)
+	if err != nil {
+		return nil, nil, err
+	}
+	if cka.xOurs.Cmp(cx) != 0 {
+		return nil, nil, errors.New("verif: client exponent not taken from the reader")
+	}
+	ska := &dheKeyAgreement{p: p, g: g, xOurs: sx}
+	server, err = ska.processClientKeyExchange(cfg, nil, ckx, VersionTLS12)
+	return server, client, err
+}
+
+// VerifECDHEPremasters does the same for ECDHE on a NIST curve or X25519 with
+// the given private scalars: the client's SharedKey (as processServerKeyExchange
+// computes it) against the server's processClientKeyExchange.
+func VerifECDHEPremasters(curveID CurveID, sPriv, cPriv []byte) (server, client []byte, err error) {
+	mk := func(priv []byte) (ecdheParameters, error) {
+		if curveID == X25519 {
+			pub, err := curve25519.X25519(priv, curve25519.Basepoint)
+			if err != nil {
+				return nil, err
+			}
+			return &x25519Parameters{privateKey: priv, publicKey: pub}, nil
+		}
+		curve, ok := curveForCurveID(curveID)
+		if !ok {
+			return nil, errors.New("verif: unsupported curve")
+		}
+		x, y := curve.ScalarBaseMult(priv)
+		return &nistParameters{privateKey: priv, x: x, y: y, curveID: curveID}, nil
+	}
+	ps, err := mk(sPriv)
+	if err != nil {
+		return nil, nil, err
+	}
+	pc, err := mk(cPriv)
+	if err != nil {
+		return nil, nil, err
+	}
+	client = pc.SharedKey(ps.PublicKey())
+	ska := &ecdheKeyAgreement{params: ps, serverParams: ps.Clone()}
+	pub := pc.PublicKey()
+	ckx := &clientKeyExchangeMsg{ciphertext: append([]byte{byte(len(pub))}, pub...)}
+	server, err = ska.processClientKeyExchange(&Config{}, nil, ckx, VersionTLS12)
+	return server, client, err
 }
